@@ -2507,10 +2507,18 @@ func chanElement(t *itype) *itype {
 }
 
 func isBool(t *itype) bool { return isBoolean(t.TypeOf()) }
-func isChan(t *itype) bool { return t.TypeOf().Kind() == reflect.Chan }
-func isFunc(t *itype) bool { return t.TypeOf().Kind() == reflect.Func }
-func isMap(t *itype) bool  { return t.TypeOf().Kind() == reflect.Map }
-func isPtr(t *itype) bool  { return t.TypeOf().Kind() == reflect.Ptr }
+func isChan(t *itype) bool { return typeKind(t) == reflect.Chan }
+func isFunc(t *itype) bool { return typeKind(t) == reflect.Func }
+func isMap(t *itype) bool  { return typeKind(t) == reflect.Map }
+func isPtr(t *itype) bool  { return typeKind(t) == reflect.Ptr }
+
+// typeKind returns the kind of the reflect type of t, reflect.Invalid for the type of nil, which has none.
+func typeKind(t *itype) reflect.Kind {
+	if rt := t.TypeOf(); rt != nil {
+		return rt.Kind()
+	}
+	return reflect.Invalid
+}
 
 func isEmptyInterface(t *itype) bool {
 	return t != nil && t.cat == interfaceT && len(t.field) == 0
